@@ -131,6 +131,11 @@ func genScenario(mode string, seed int64) Scenario {
 		s.MsgTimeout = []time.Duration{100 * time.Millisecond, 200 * time.Millisecond}[r.Intn(2)]
 		s.MaxMsgTmo = s.MsgTimeout * 3
 	case "flow":
+		// (independent stream) a third of the runs over deflate, some over snappy: the output path has a compressor in it
+		fr := rand.New(rand.NewSource(seed*4409 + 17))
+		s.Deflate = fr.Intn(3) == 0
+		s.DeflateLvl = 1 + fr.Intn(6)
+		s.Snappy = !s.Deflate && fr.Intn(4) == 0
 		s.MsgTimeout = []time.Duration{150 * time.Millisecond, 5 * time.Second}[r.Intn(2)]
 		s.MaxMsgTmo = s.MsgTimeout * 3
 		s.OutBufSize = []int{0, 64, 16384}[r.Intn(3)]
